@@ -178,7 +178,7 @@ def rule_families(E, R):
             fam = sem.admitted_tuples(x.pc, [pX], [UX])
             if len(fam) == 1:
                 split.setdefault(last_seg(next(iter(fam))[0]), []).append(sem.root_local(S, x.node["recv"], x.frame))
-    lits_ = [x for x in S.sites() if x.node.get("k") == "Struct" and norm(x.node["res"].get("path", "")).endswith("compile_with_compiler::OneOfIp")]
+    lits_ = [x for x in S.sites() if x.node.get("k") == "Struct" and norm(x.node["res"].get("path", "")).endswith("::OneOfIp")]
     ok = set(split) == {"V4", "V6"} and all(len(v) == 1 and v[0] is not None for v in split.values()) and len(lits_) == 1 and \
         split["V4"][0] is not split["V6"][0]
     if ok:
@@ -188,7 +188,7 @@ def rule_families(E, R):
         ok = r4[0] is split["V4"][0] and r6[0] is split["V6"][0] and "from" in r4[3] and "from" in r6[3]
     R.check(ok, rule, common.CMP_COMPILE, "IPv4 ranges and IPv6 ranges are collected separately",
             "each family's ranges must be pushed onto its own vector, which becomes the set of that family", h["span"])
-    cmp_ = E.hirs(r"compile_with_compiler::OneOfIp as ast::index_expr::Compare<U>>::compare$")
+    cmp_ = E.hirs(r"\w+::OneOfIp as ast::index_expr::Compare<U>>::compare$")
     if len(cmp_) == 1:
         tbl = {}
         for m in exprs(cmp_[0]["body"], "Match"):
@@ -203,14 +203,14 @@ def rule_families(E, R):
     else:
         R.cannot(rule, "OneOfIp::compare", "anchor not found")
     # element types of the two sets
-    a = [x for p, x in E.adts.items() if p.endswith("compile_with_compiler::OneOfIp")]
+    a = [x for p, x in E.adts.items() if p.endswith("::OneOfIp")]
     if a:
         tys = {f["name"]: norm(f["ty"]) for f in a[0]["variants"][0]["fields"]}
         ok = "Ipv4Addr" in tys.get("v4", "") and "Ipv6Addr" in tys.get("v6", "")
         R.check(ok, rule, "OneOfIp", "the two sets have distinct element types (Ipv4Addr / Ipv6Addr)", str(tys))
     # ints and bytes
-    for rx, what in ((r"compile_with_compiler::OneOfInt as ast::index_expr::Compare<U>>::compare$", "integers use RangeSet::contains"),
-                     (r"compile_with_compiler::Contains as ast::index_expr::Compare<U>>::compare$", "byte strings use BTreeSet::contains")):
+    for rx, what in ((r"\w+::OneOfInt as ast::index_expr::Compare<U>>::compare$", "integers use RangeSet::contains"),
+                     (r"\w+::Contains as ast::index_expr::Compare<U>>::compare$", "byte strings use BTreeSet::contains")):
         hs = E.hirs(rx)
         if len(hs) == 1:
             t = fn_result(hs[0])
